@@ -12,13 +12,17 @@ LEVEL = "proof"
 RULE = ("self pairs (V, V) of every family (all-distinct, constant, singleton strata, Zipf, sparse, ...) and pairs (Y, X) with the correction flag ON run through the real mutual_info_estimator_numba(int32, int32, float32(1.0), "
         "True) and through the Coq transcription (term structure incl. the displaced class counts), C01 families; plus the "
         "heuristic-name -> flag wiring of importance_estimator.numba_mi (ast, fail closed, and driven at run time); plus, as a "
-        "SUPPORTING statistic only, the planted-signal ranking family at n = 4000; non-trivial = both sides take >= 2 values "
+        "SUPPORTING statistic only, the planted-signal ranking family at n = 4000; plus SCALE families regenerated from (family, n, "
+        "seed) at n = 40 000 .. 200 000 (thorough 10^6): all-distinct pairs / self pairs, distinct(Y) > 65 536, target groups > 32 768 "
+        "rows, many singleton strata, sorted / drifting Y, distinct(X)*distinct(Y) > 2^31; non-trivial = both sides take >= 2 values "
         "and Y != X; distinct = distinct (Y, X)")
 THEOREMS = ["C03_identity", "C03_core_identity", "C03_const", "C03_alldistinct", "C03_self", "C03_displace_shape"]
 NAME = "MI-numba-randomized"
 WIRING_NAMES = ["MI-numba-randomized", "MI-numba", "MI-numba-3mr", "MI-numba-random", "MI-numba-Randomized", "randomized",
                 "MI-numba-3mr-randomized", "randomized-MI-numba", "MI-numba_randomized", "MI-randomized", "MI-numba-randomize",
                 "MI-numba-randomized-3mr", "x-MI-numba-randomized"]
+SCALE_CLAUSE = ("score(Y, X, 1.0, True) = H(Y*|X) - H(Y|X) (Y* the displaced copy), = H(Y) for Y = X, = 0 for an all-distinct or "
+                "constant Y, up to single-precision rounding")
 WIRING_PAIR = {"Y": [0, 1, 0, 1, 2, 2, 0, 1], "X": [1, 0, 1, 0, 2, 2, 1, 0]}      # corrected 0.6507, uncorrected 1.0822
 
 
@@ -345,6 +349,9 @@ def check(run, replay):
         ast_ok, ast_msg = False, "reader error %s: %s" % (type(e).__name__, e)
 
     rkind = (replay.get("case") or {}).get("kind") if replay is not None else None
+    if rkind == "scale":
+        c01.scale_family(run, "C03", [replay["case"]], [], [], SCALE_CLAUSE)
+        return
     wiring_replay = rkind == "wiring"
     histories = []
     if wiring_replay:
@@ -419,6 +426,11 @@ def check(run, replay):
                             clause="score(Y, X, 1.0, True) = H(Y*|X) - H(Y|X) (Y* the displaced copy), = H(Y) for Y = X, "
                                    "up to single-precision rounding",
                             obligation="correspondence:impl(flag=True) = eval(model terms) within 8*2^-24*(sum|terms|+1e-6)")
+
+    # --- SCALE families (flag on): thresholds of sort-based / blocked / sampled kernels, expected values via np_terms
+    if replay is None:
+        sc, stt = c01.pick_small(cases, results)
+        c01.scale_family(run, "C03", c01.scale_specs("C03", run.rng, run.tier), sc, stt, SCALE_CLAUSE)
 
     # --- wiring at run time: numba_mi / conduct_feature_ranking per heuristic name, observed through the score (corrected and
     # uncorrected values of the probe pair differ: 0.6507 vs 1.0822) and through the flag handed to the estimator
